@@ -175,3 +175,10 @@ Theorem run_spec_accepts_run_model : forall (c : list tok) (h : bytes) (ops : li
   parse_case c = Some (h, ops) -> model_case h ops <> None -> run_spec c (run_model c) = [].
 Proof. exact ProofsGlue.run_spec_accepts_run_model. Qed.
 Print Assumptions run_spec_accepts_run_model.
+
+(* purity-probe lines (PURITY ...): the model, whose operations are functions of values, predicts PURE, and the
+   SPEC entry point accepts exactly that; the probe itself (real threads on shared objects under ThreadSanitizer)
+   is a run-time check of the model's purity assumption on the implementation, not a theorem *)
+Theorem purity_line_meets_spec : forall c : list tok, is_purity_case c = true -> run_spec c (run_model c) = [].
+Proof. exact ProofsGlue.purity_line_meets_spec. Qed.
+Print Assumptions purity_line_meets_spec.
